@@ -20,9 +20,12 @@ class CallGraph:
         self.unresolved = 0
         self.resolved = 0
         self.funcs = {f.fq: f for f in repo.all_functions()}
-        self._direct: dict[str, bool] = {}  # callee fq -> reached by a resolved (non-CHA) edge
+        self.direct: dict[str, set[str]] = {}  # caller fq -> callees reached by a resolved (non-CHA) edge
+        self._dcur: set[str] = set()
         for f in repo.all_functions():
+            self._dcur = set()
             self.edges[f.fq] = self._callees(f)
+            self.direct[f.fq] = self._dcur
 
     def _callees(self, f: FuncInfo) -> set[str]:
         out = set()
@@ -30,6 +33,7 @@ class CallGraph:
         for g in self.repo.all_functions():
             if g.parent is f:
                 out.add(g.fq)
+                self._dcur.add(g.fq)
         for x in walk_own(f.node):
             if isinstance(x, ast.Call):
                 fn = x.func
@@ -37,7 +41,7 @@ class CallGraph:
                     r = self.repo.resolve_name(f.module, fn.id)
                     if r and r[0] == "func":
                         out.add(r[1].fq)
-                        self._direct[r[1].fq] = True
+                        self._dcur.add(r[1].fq)
                         self.resolved += 1
                     elif r and r[0] == "class":
                         self._ctor(r[1], out)
@@ -48,10 +52,10 @@ class CallGraph:
                         # curated fact: minidom toxml/toprettyxml call self.writexml
                         for g in self.by_name.get("writexml", []):
                             out.add(g.fq)
-                            self._direct[g.fq] = True
+                            self._dcur.add(g.fq)
                     if r and r[0] == "func":
                         out.add(r[1].fq)
-                        self._direct[r[1].fq] = True
+                        self._dcur.add(r[1].fq)
                         self.resolved += 1
                     elif r and r[0] == "class":
                         self._ctor(r[1], out)
@@ -78,7 +82,7 @@ class CallGraph:
         for c in self.interp.mro(ci):
             if "__init__" in c.methods:
                 out.add(c.methods["__init__"].fq)
-                self._direct[c.methods["__init__"].fq] = True
+                self._dcur.add(c.methods["__init__"].fq)
                 break
         # instances may later receive any method call: handled by name-CHA at the call site
 
@@ -130,26 +134,26 @@ class CallGraph:
         live_classes: set[str] = set()
         seen: set[str] = set()
         pending: set[str] = set()  # method candidates waiting for their class to become live
-        stack = list(roots)
+        stack = [(r, True) for r in roots]
         while stack:
-            x = stack.pop()
+            x, direct = stack.pop()
             if x in seen or x not in self.edges:
                 continue
             f = self.funcs[x]
             owner = f
             while owner.cls is None and owner.parent is not None:
                 owner = owner.parent
-            if owner.cls is not None and x not in roots:
+            if owner.cls is not None and not direct:
                 ok = any(owner.cls.fq in anc[l] for l in live_classes)
-                if not ok and not self._direct.get(x):
+                if not ok:
                     pending.add(x)
                     continue
             seen.add(x)
             new_live = loads.get(x, set()) - live_classes
             if new_live:
-                for l in new_live:
-                    live_classes |= {l}
-                stack.extend(pending)
+                live_classes |= new_live
+                stack.extend((p, False) for p in pending)
                 pending = set()
-            stack.extend(self.edges[x] - seen)
+            for y in self.edges[x] - seen:
+                stack.append((y, y in self.direct.get(x, ())))
         return seen
